@@ -17,6 +17,7 @@ macro_rules! registry {
 }
 
 registry! {
+    "C02" => c02,
     "C15" => c15,
     "C16" => c16,
     "C17" => c17,
